@@ -163,10 +163,24 @@ impl Diff {
 fn tokenize(b: &[u8]) -> impl Iterator<Item = &[u8]> {
     use std::iter;
 
+    // A name has at most 128 token positions, including the name type and end tokens. The last
+    // token takes the remainder of the name.
+    const MAX_TOKEN_COUNT: usize = 128 - 2;
+
     let mut start = 0;
     let mut end = 0;
+    let mut n = 0;
 
     iter::from_fn(move || {
+        n += 1;
+
+        if n == MAX_TOKEN_COUNT && start < b.len() {
+            let beg = start;
+            start = b.len();
+            end = b.len();
+            return Some(&b[beg..]);
+        }
+
         while end < b.len() && b[end].is_ascii_alphanumeric() {
             end += 1;
         }
